@@ -268,6 +268,18 @@ def identify_case(rec):
     check(tuple(from_obj) == want, "identity-of-object", lambda: "identify_image(object) = %r, attributes say %r" % (tuple(from_obj), want))
     check(from_obj == from_dict == from_doc, "identity-object-vs-dict", lambda: "object %r, dict %r, json dict %r" % (from_obj, from_dict, from_doc))
     check(tuple(from_obj._fields) == tuple(imm.IDENTITY), "identity-fields", "%r" % (from_obj._fields,))
+    # an object whose identity has no place in the dictionary (additional variants on an image that is not unified): it either has
+    # no serialised dictionary at all (refused) or the two identities agree
+    odd = imm.make_image(im, rec)
+    odd.unified, odd.additional_variants = False, list(rec.get("additional_variants") or []) + ["Extra"]
+    odd_out = []
+    try:
+        odd.serialize(odd_out)
+    except (ValueError, TypeError):
+        odd_out = None
+    if odd_out:
+        a, b = must("identify-object", identify_image, odd), must("identify-dict", identify_image, odd_out[0])
+        check(a == b, "identity-object-vs-dict", lambda: "image that is not unified and names additional variants: object %r, its dictionary %r" % (a, b))
     # identity is what the object says NOW: re-bind identity attributes of the object that was just identified and ask again
     changed = dict(rec, subvariant=rec["subvariant"] + "x", disc_number=rec["disc_number"] + 1, arch="s390x" if rec["arch"] != "s390x" else "x86_64")
     img.subvariant, img.disc_number, img.arch = changed["subvariant"], changed["disc_number"], changed["arch"]
